@@ -412,6 +412,11 @@ func fnSetBit(ctx *cmdContext, args map[string]any) (output respValue, err error
 	}
 
 	result := ctx.dsc.bitfieldWrite(keyName, []*bitfieldOp{op})
+	if _, isError := result.data.(respErrorString); isError {
+		// the key holds another type
+		output = result
+		return
+	}
 
 	// result is an array of 1; convert it to a single output value
 	ra := result.toNative().([]any)
